@@ -49,6 +49,34 @@ class VBM:
         self._cfgs = {}
         self._first_writer = {}
 
+    def _assertion_via_param(self, f, raise_node):
+        """`raise X(msg)` with msg a parameter of a helper: an assertion if every caller passes a literal message
+        that is tabulated as an assertion of that caller (helper extracted from several assertion sites)"""
+        exc = raise_node.exc
+        if not (isinstance(exc, ast.Call) and len(exc.args) == 1 and isinstance(exc.args[0], ast.Name)):
+            return False
+        params = [p.lstrip('*') for p in f.params]
+        if exc.args[0].id not in params:
+            return False
+        idx = params.index(exc.args[0].id)
+        if f.cls is not None and params and params[0] == 'self':
+            idx -= 1
+        sites = self.ctx.callers().get(f.qual, [])
+        if not sites:
+            return False
+        for caller, call in sites:
+            args = call.node.args
+            a = args[idx] if 0 <= idx < len(args) else None
+            if a is None:
+                for kw in call.node.keywords:
+                    if kw.arg == exc.args[0].id:
+                        a = kw.value
+            if not (isinstance(a, ast.Constant) and isinstance(a.value, str)):
+                return False
+            if (caller.qual, a.value[:80]) not in self.assertions:
+                return False
+        return True
+
     # ------------------------------------------------------------------ setup
     def _derived_attrs(self):
         ctx = self.ctx
@@ -415,7 +443,7 @@ class VBM:
             labs = set(lab for m, lab in n.succ if m is g.raise_exit)
             if n.kind == 'stmt' and isinstance(n.ast, ast.Raise) and 'exc' in labs:
                 cls = raises_class(n.ast)
-                if cls in self.tracked and (f.qual, raise_message(n.ast)[:80]) in self.assertions:
+                if cls in self.tracked and ((f.qual, raise_message(n.ast)[:80]) in self.assertions or self._assertion_via_param(f, n.ast)):
                     continue        # consistency assertion (tables/vbm_assertions.json), not a refusal
                 if cls in self.tracked:
                     cur, evs = call_effects(n, st)
